@@ -63,7 +63,11 @@ def run(tier, seed):
     chk.cov["theorem_coverage"] = {"collisions_found": len(colls), "explained_by_model_naming": sum(1 for e in (explained or []) if e)}
     # backend symmetry parts
     parts = {}
-    for mod, fn in (("sqliterun", "c19_part"), ("pgrun", "c19_part"), ("mysqlrun", "c19_part")):
+    for mod, fn, gate in (("sqliterun", "c19_part", "C02"), ("pgrun", "c19_part", "C03"), ("mysqlrun", "c19_part", "C04")):
+        # a backend part counts only once its layer is declared finished (its main property has a props file)
+        if not os.path.exists(os.path.join(ROOT, "props", gate + ".json")):
+            parts[mod] = "layer not finished yet (props/%s.json absent)" % gate
+            continue
         try:
             m = importlib.import_module(mod)
             if hasattr(m, fn):
